@@ -775,6 +775,9 @@ func init() {
 // The verdict is a fresh Boolean per (pattern, byte-vector); identical
 // byte vectors share it (function consistency by hash-consing the name).
 func (i *interpreter) reMatchSym(re *regexp.Regexp, s symStr) value {
+	if v, ok := i.reMatchExact(re, s); ok {
+		return v
+	}
 	c := i.ctx()
 	var sb strings.Builder
 	fmt.Fprintf(&sb, "re%x", hashStr(re.String()))
@@ -1354,5 +1357,53 @@ func init() {
 			}
 		}
 		return nil
+	}
+}
+
+// ---------------------------------------------------------------------
+// bytes.Buffer writes that may carry opaque pieces (formatted symbolic
+// numbers): elements are appended to buf as they are. Reads stay interpreted.
+
+func init() {
+	bufOf := func(recv value) *value {
+		st := (*(recv.(*value))).(structure)
+		return &st[0]
+	}
+	externals["(*bytes.Buffer).WriteString"] = func(fr *frame, a []value) value {
+		p := bufOf(a[0])
+		cur, _ := (*p).([]value)
+		s := toSymStr(a[1])
+		*p = append(cur, s.b...)
+		return tuple{len(s.b), iface{}}
+	}
+	externals["(*bytes.Buffer).Write"] = func(fr *frame, a []value) value {
+		p := bufOf(a[0])
+		cur, _ := (*p).([]value)
+		src := a[1].([]value)
+		*p = append(cur, src...)
+		return tuple{len(src), iface{}}
+	}
+	externals["(*bytes.Buffer).WriteByte"] = func(fr *frame, a []value) value {
+		p := bufOf(a[0])
+		cur, _ := (*p).([]value)
+		*p = append(cur, a[1])
+		return iface{}
+	}
+	externals["(*bytes.Buffer).WriteRune"] = func(fr *frame, a []value) value {
+		r, ok := a[1].(int32)
+		if !ok {
+			panic(unsupported{"bytes.Buffer.WriteRune of a symbolic rune"})
+		}
+		p := bufOf(a[0])
+		cur, _ := (*p).([]value)
+		s := string(r)
+		*p = append(cur, toSymStr(s).b...)
+		return tuple{len(s), iface{}}
+	}
+	externals["math.Signbit"] = func(fr *frame, a []value) value {
+		if s, ok := a[0].(symVal); ok {
+			return fr.i.boolSym(fr.i.ctx().App("fp.isNegative", sym.Bool, s.t))
+		}
+		return math.Signbit(a[0].(float64))
 	}
 }
